@@ -48,12 +48,13 @@ def write_file(fspec, fs, env, name, plan=None, observer=None):
         def do(target):
             obj.write_file(target, w.key)
     else:
-        abs_, wenc, dec = prov.build_blocks(fspec["blocks"], env)
+        abs_, wenc, dec = prov.build_blocks(fspec["blocks"], env, decoys=fspec.get("decoys", False))
         key = bytes.fromhex(fspec["key"]) if fspec.get("key") else None
         bec = env.bec2file.Bec2File(obj, abs_, key)
         w.key = bec.session_key
         w.decryptors = dec
         w.obj = bec
+        w.wenc = wenc
 
         def do(target):
             bec.write_file(target, wenc)
